@@ -143,6 +143,7 @@ class IndexDefinition1n(IndexDefinition):
         keys = self._get_key_func(obj)
         if not self._index_none_values and keys is None:
             return None
+        keys = list(dict.fromkeys(keys))  # an object is indexed once per key, also if its list names the key twice
         for k in keys:
             try:
                 self[k].append(obj)
